@@ -71,16 +71,17 @@ pub struct Ev {
     pub b: u64,
 }
 pub const MAX_EV: usize = 12;
-pub struct Recorder {
-    pub ev: [Ev; MAX_EV],
+pub type Recorder = RecorderN<MAX_EV>;
+pub struct RecorderN<const M: usize> {
+    pub ev: [Ev; M],
     pub n: usize,
 }
-impl Recorder {
+impl<const M: usize> RecorderN<M> {
     pub fn new() -> Self {
-        Recorder { ev: [Ev { kind: 0, a: 0, b: 0 }; MAX_EV], n: 0 }
+        RecorderN { ev: [Ev { kind: 0, a: 0, b: 0 }; M], n: 0 }
     }
     fn rec(&mut self, kind: u8, a: u64, b: u64) {
-        assert!(self.n < MAX_EV, "recorder capacity");
+        assert!(self.n < M, "recorder capacity");
         self.ev[self.n] = Ev { kind, a, b };
         self.n += 1;
     }
@@ -108,7 +109,7 @@ impl Recorder {
         }
     }
 }
-impl Write for Recorder {
+impl<const M: usize> Write for RecorderN<M> {
     fn write_all(&mut self, buf: &[u8]) {
         self.rec(1, buf.len() as u64, Self::pack(buf));
     }
@@ -119,7 +120,7 @@ impl Write for Recorder {
         self.rec(3, s.len() as u64, Self::pack(s.as_bytes()));
     }
 }
-impl Encoder for Recorder {
+impl<const M: usize> Encoder for RecorderN<M> {
     fn to_vec(self) -> Vec<u8> {
         Vec::new()
     }
@@ -164,10 +165,10 @@ impl Encoder for Recorder {
     }
 }
 
-pub fn assert_same_events(a: &Recorder, b: &Recorder) {
+pub fn assert_same_events<const M: usize>(a: &RecorderN<M>, b: &RecorderN<M>) {
     assert!(a.n == b.n, "slice and splice encodings make a different number of encoder calls");
     let mut i = 0;
-    while i < MAX_EV {
+    while i < M {
         if i < a.n {
             assert!(a.ev[i].kind == b.ev[i].kind, "slice and splice encodings make different encoder calls");
             assert!(a.ev[i].a == b.ev[i].a && a.ev[i].b == b.ev[i].b,
